@@ -34,7 +34,7 @@ fn tx_of(u: &mut Unstructured) -> arbitrary::Result<TxSpec> {
     for _ in 0..nout {
         outputs.push(OutSpec { value: u.arbitrary()?, script: bytes_of(u, 120)? });
     }
-    Ok(TxSpec { version: u.arbitrary()?, locktime: u.arbitrary()?, inputs, outputs, segwit: u.arbitrary()? })
+    Ok(TxSpec { version: u.arbitrary()?, locktime: u.arbitrary()?, inputs, outputs, segwit: u.arbitrary()?, dup_of: None })
 }
 
 fn case_of(data: &[u8]) -> arbitrary::Result<BlockCase> {
